@@ -43,6 +43,7 @@ def main():
                 out = v
     all_ids = sorted(d for d in os.listdir(os.path.join(VERIF, "seeded")) if os.path.exists(os.path.join(VERIF, "seeded", d, "patch.diff")))
     ids = [d for d in all_ids if not args or any(fnmatch.fnmatch(d, a) for a in args)]
+    ids = [d for d in ids if not json.load(open(os.path.join(VERIF, "seeded", d, "meta.json"))).get("obsolete")]
     q = queue.Queue()
     for d in ids:
         q.put(d)
